@@ -482,6 +482,9 @@ func (r *HarnessRun) check(e *Exec, kind, label string, cond *Term) {
 		r.addFinding(kind, label, pos, r.witness)
 	} else {
 		res := r.query([]*Term{nc}, true, kind)
+		if res.Status == "sat" && r.opts.Backend == "lia" {
+			res = r.concretise(nc, res)
+		}
 		switch res.Status {
 		case "unsat":
 			o.Unsat++
@@ -489,6 +492,9 @@ func (r *HarnessRun) check(e *Exec, kind, label string, cond *Term) {
 		case "sat":
 			o.Sat++
 			r.addFinding(kind, label, pos, res.Model)
+			if res.Detail == "abstract" {
+				r.findings[len(r.findings)-1].Status = "abstract"
+			}
 		default:
 			o.Unk++
 			o.Detail = firstLine(res.Detail)
@@ -588,4 +594,114 @@ func (r *HarnessRun) runPath(prefix []int) {
 			r.incon = append(r.incon, "reach-end feasibility: "+res.Status)
 		}
 	}
+}
+
+// concretise: a sat answer of a query whose symbolic products were abstracted by free
+// variables may be spurious.  Check the model with exact (big-integer) evaluation; if it is
+// not a real counterexample, fix the variables of one operand of every product (to the
+// model's values, then to a few structured values) so that products become linear and the
+// query exact, and re-solve under a short budget.  If no real counterexample is found the
+// abstract one is returned marked Detail="abstract": the carry/reduction logic is wrong for
+// some values of the partial products, which the replay cannot reproduce natively.
+func (r *HarnessRun) concretise(nc *Term, res SolveResult) SolveResult {
+	roots := append(append([]*Term{}, r.pc...), nc)
+	prods := symProducts(roots)
+	if len(prods) == 0 {
+		return res
+	}
+	genuine := func(m map[string]*big.Int) (ok bool) {
+		defer func() {
+			if rec := recover(); rec != nil {
+				ok = false
+			}
+		}()
+		memo := map[int]*big.Int{}
+		for _, t := range roots {
+			if r.b.Eval(t, m, memo).Sign() == 0 {
+				return false
+			}
+		}
+		return true
+	}
+	if genuine(res.Model) {
+		return res
+	}
+	// variables of the first operand of each product
+	fix := map[string]*Term{}
+	for _, p := range prods {
+		v0 := map[string]*Term{}
+		termVars(p.Args[0], map[int]bool{}, v0)
+		v1 := map[string]*Term{}
+		termVars(p.Args[1], map[int]bool{}, v1)
+		done := func(vs map[string]*Term) bool {
+			if len(vs) == 0 {
+				return false
+			}
+			for n := range vs {
+				if _, ok := fix[n]; !ok {
+					return false
+				}
+			}
+			return true
+		}
+		if done(v0) || done(v1) {
+			continue
+		}
+		for n, t := range v0 {
+			fix[n] = t
+		}
+	}
+	var names []string
+	for n := range fix {
+		names = append(names, n)
+	}
+	sort.Strings(names)
+	cands := []func(i int, n string, t *Term) *big.Int{
+		func(i int, n string, t *Term) *big.Int { return res.Model[n] },
+		func(i int, n string, t *Term) *big.Int {
+			if i == 0 {
+				return big.NewInt(2)
+			}
+			return big.NewInt(0)
+		},
+		func(i int, n string, t *Term) *big.Int { return maskW(int(t.S)) },
+		func(i int, n string, t *Term) *big.Int {
+			if i == 0 {
+				return big.NewInt(3)
+			}
+			return big.NewInt(0)
+		},
+	}
+	save, saveT := r.pc, r.opts.TimeoutS
+	defer func() { r.pc, r.opts.TimeoutS = save, saveT }()
+	r.opts.TimeoutS = 20
+	for ci, cand := range cands {
+		env := map[string]*big.Int{}
+		for i, n := range names {
+			v := cand(i, n, fix[n])
+			if v == nil {
+				v = big.NewInt(0)
+			}
+			env[n] = v
+		}
+		memo := map[int]*Term{}
+		var sub []*Term
+		for _, t := range roots {
+			sub = append(sub, r.b.Subst(t, env, memo))
+		}
+		r.pc = nil
+		ex := r.query(sub, true, "concretise")
+		if ex.Status == "sat" {
+			for n, v := range env {
+				ex.Model[n] = v
+			}
+			if genuine(ex.Model) {
+				r.note(fmt.Sprintf("abstract counterexample concretised with operand candidate %d", ci))
+				return ex
+			}
+		}
+	}
+	r.note("abstract counterexample (over free partial products) could not be concretised within budget")
+	res.Detail = "abstract"
+	return res
 }
